@@ -693,6 +693,72 @@ def _wiring_case(c):
     return bad
 
 
+def _wiring_file_case(item):
+    """The same forwarding through the input-file entry point: a manager configured through the API writes its input file, the command-line
+    worker loads it, and the search constructor must be given the flow type and rate the user chose (Wiring.tla Forwarded for the file path)."""
+    from types import SimpleNamespace  # noqa: PLC0415
+
+    import_repo()
+    import ghedesigner.design as gd  # noqa: PLC0415
+    import ghedesigner.manager as gm  # noqa: PLC0415
+    from ghedesigner.enums import FlowConfigType  # noqa: PLC0415
+
+    geom, flow, rate = item
+    rnd = random.Random(hash((geom, flow)) & 0xFFFF)
+    cfgc = {"method": geom, "perimeter": True, "pipe": "SINGLEUTUBE", "fluid": "WATER", "flow": flow, "maxbh": False, "cont": False}
+    bad = []
+    d = Path(tempfile.mkdtemp(prefix="c20file-", dir=BUILD))
+    names = ["Bisection1D", "Bisection2D", "BisectionZD", "RowWiseModifiedBisectionSearch"]
+    real = {n: getattr(gd, n) for n in names}
+    real_m = (gm.GHEManager.find_design, gm.GHEManager.prepare_results, gm.GHEManager.write_output_files)
+    captured = {}
+    try:
+        with contextlib.redirect_stdout(io.StringIO()), contextlib.redirect_stderr(io.StringIO()), warnings.catch_warnings():
+            warnings.simplefilter("ignore")
+            m = build_manager(cfgc, rnd, loads=profile(3000.0), small=True)
+            m.set_design(flow_rate=rate, flow_type_str=flow.lower())
+            f1 = d / "a.json"
+            m.write_input_file(f1)
+
+            def make(nm):
+                def ctor(*a, **kw):
+                    captured["cls"], captured["a"], captured["kw"] = nm, a, kw
+                    return SimpleNamespace()
+                return ctor
+
+            def fd(self, throw=True):
+                for n in names:
+                    setattr(gd, n, make(n))
+                try:
+                    self._design.find_design()
+                finally:
+                    for n in names:
+                        setattr(gd, n, real[n])
+                return 0
+
+            gm.GHEManager.find_design = fd
+            gm.GHEManager.prepare_results = lambda self, *a, **k: None
+            gm.GHEManager.write_output_files = lambda self, *a, **k: None
+            try:
+                rc = gm._run_manager_from_cli_worker(f1, d / "out")
+            finally:
+                gm.GHEManager.find_design, gm.GHEManager.prepare_results, gm.GHEManager.write_output_files = real_m
+        where = f"{geom} configured with a {flow} flow of {rate} L/s, written to an input file and run from it"
+        if rc != 0 or "kw" not in captured:
+            return [f"{where}: the worker returned {rc} without constructing a search"]
+        want = FlowConfigType.SYSTEM if flow == "SYSTEM" else FlowConfigType.BOREHOLE
+        if captured["kw"].get("flow_type") != want:
+            bad.append(f"{where}: the search gets flow_type {captured['kw'].get('flow_type')}")
+        vals = list(captured["a"]) + list(captured["kw"].values())
+        if not any(isinstance(v, float) and v == rate for v in vals):
+            bad.append(f"{where}: the search is not given the flow rate")
+    except Exception as ex:  # noqa: BLE001
+        bad.append(f"{geom} / {flow}: raised {type(ex).__name__}: {ex}")
+    finally:
+        shutil.rmtree(d, ignore_errors=True)
+    return bad
+
+
 def wiring(chk: Check):
     cfg = "INIT Init\nNEXT Next\nCHECK_DEADLOCK FALSE\nINVARIANT Forwarded\nINVARIANT DesignHolds\nINVARIANT GeneratorGetsUserGeometry\nINVARIANT Emit\n"
     res = run_tlc("Wiring", cfg, workers=1)
@@ -711,3 +777,9 @@ def wiring(chk: Check):
             chk.violation(f"C20/C13 wiring: {b}", {"case": c})
     chk.traces += len(cases)
     chk.note("wiring_cases_replayed", len(cases))
+    items = [(g, f, r) for g in ("NEARSQUARE", "RECTANGLE", "BIRECTANGLE", "BIZONEDRECTANGLE", "BIRECTANGLECONSTRAINED", "ROWWISE") for f, r in (("BOREHOLE", 0.25), ("SYSTEM", 7.5))]
+    for it, bad in zip(items, parallel_map(_wiring_file_case, items, chunksize=1)):
+        for b in bad[:2]:
+            chk.violation(f"C20/C13 wiring through the input file: {b}", {"case": list(it)})
+    chk.traces += len(items)
+    chk.note("wiring_input_file_cases", len(items))
